@@ -17,7 +17,7 @@ for s in A B C; do
   if [ $r -ne 0 ]; then
     r=0
     for t in $(grep -E "^--- FAIL" /tmp/bk-$id-$s.log | awk '{print $3}' | cut -d/ -f1 | sort -u); do
-      okt=1; for k in 1 2 3; do if unshare -rn sh -c "ip link set lo up; go test -vet=off -count=1 -run '^$t\$' ./..." > /tmp/bk-$id-$s.re 2>&1; then okt=0; break; fi; done
+      okt=1; for k in 1 2 3; do if unshare -rn sh -c "ip link set lo up; go test -vet=off -count=1 -run '^$t\$' ./..." > /tmp/bk-$id-$s.re 2>&1; then okt=0; break; fi; if go test -vet=off -count=1 -run "^$t\$" ./... > /tmp/bk-$id-$s.re 2>&1; then okt=0; break; fi; done
       echo "   re-run $t: $([ $okt -eq 0 ] && echo passes-on-retry || echo STILL-FAILS)"; [ $okt -ne 0 ] && r=1
     done
     grep -qE "^(--- FAIL)" /tmp/bk-$id-$s.log || r=1
